@@ -208,11 +208,15 @@ CHECKS = {
         "text": "All lattice laws (reflexive, transitive, antisymmetric order; bottom/top; join/meet commutative, idempotent, "
                 "upper/lower bounds, consistent with the order) are Coq theorems by structural induction over ALL elements of any "
                 "nesting depth and any names, about a model of lattice.py + kirin's Simple{Join,Meet}Mixin. The model is tied to the "
+                "source in BOTH ways: (1) lattice.py is translated to Gallina on every run by a fail-closed Python-ast translator "
+                "(harness/gen/lattice_translate.py: class hierarchy, dataclass fields, every is_subseteq and join body, top/bottom) and the generated "
+                "order/join/meet are PROVED equal to the hand model in build/C18/Gen_C18.v, where the laws are restated for the generated "
+                "definitions - so they hold of the code as written for elements of every depth; (2) the model is compared with the "
                 "live classes by an exhaustive (thorough) / sampled-rows (quick) comparison of is_subseteq/join/meet on the 399 "
                 "elements of depth<=1 over {a,b} and random depth-3 pairs; the laws are additionally evaluated directly on the live "
                 "classes (all pairs, all comparable triples) to produce concrete replays.",
         "note": NOTE_COMMON,
-        "technique": "Coq proof by structural induction + vm_compute correspondence against the live classes",
+        "technique": "Coq proof by structural induction + model regenerated from source by a translator and proved equal to the hand model + vm_compute correspondence against the live classes",
     },
 }
 
